@@ -16,6 +16,9 @@ func (_ ValueBool) Kind() ValueKind { return BoolValueKind }
 func (self ValueBool) Display() (string, *Interrupt) { return fmt.Sprint(self.Inner), nil }
 
 func (self ValueBool) IsEqual(other Value) (bool, *Interrupt) {
+	if other.Kind() != self.Kind() {
+		return false, nil
+	}
 	return self.Inner == other.(ValueBool).Inner, nil
 }
 
